@@ -89,6 +89,7 @@ def build_db(rng, n):
         k = Required(int)
         s = Required(str)
         v = Optional(int)
+        m = Required(int)
         hs = Set('H')
     class H(db.Entity):
         g = Required(G)
@@ -97,7 +98,7 @@ def build_db(rng, n):
     db.generate_mapping(create_tables=True)
     with db_session:
         for i in range(n):
-            g = G(k=rng.choice([0, 1, 2, 3, 3, 5]), s=rng.choice(['a', 'b', 'ab', 'c', '']) or 'z', v=rng.choice([None, None, 0, 1, 2, 7, -3]))
+            g = G(k=rng.choice([0, 1, 2, 3, 3, 5]), s=rng.choice(['a', 'b', 'ab', 'c', '']) or 'z', v=rng.choice([None, None, 0, 1, 2, 7, -3]), m=rng.choice([0, 1, 1, 2, -4]))
             for j in range(rng.choice([0, 0, 1, 2, 3])):
                 H(g=g, w=rng.choice([0, 1, 5, 9]))
     return db, G, H
@@ -117,6 +118,7 @@ def sel(G, what, cond):
 def method_oracle(ctx):
     rng = ctx.rng
     rounds = ctx.scale(6, 60)
+    chain_rows, sample_reqs = [], []
     for rd in range(rounds):
         n = rng.choice([0, 1, 2, 5, 9, 14])
         db, G, H = build_db(rng, n)
@@ -211,12 +213,32 @@ def method_oracle(ctx):
                                   observed=got, expected=exp, key='filter-over-limited-subquery')
                 # aggregates repeated after an unflushed change must see it (same query object, warm result cache)
                 before_cnt = q0.count(); before_sum = qk.without_distinct().sum()
-                extra = G(k=3, s='ab', v=None)
+                extra = G(k=3, s='ab', v=None, m=0)
                 inc = 1 if pyf(extra) else 0
                 check('count-after-unflushed-insert', q0.count(), before_cnt + inc, [])
                 check('sum-after-unflushed-insert', qk.without_distinct().sum(), before_sum + 3 * inc, [])
                 extra.delete()
                 check('count-after-unflushed-delete', q0.count(), before_cnt, [])
+                # chained order_by: the NEWER criterion has priority (ORDER BY k, m for order_by(m).order_by(k)); compared on the key pairs
+                # (rows with equal (k, m) may come in any order) and, through the model, with the double stable sort
+                chained = q0.order_by(G.m).order_by(G.k)[:]
+                check('order_by-chain', [(o.k, o.m) for o in chained], sorted((o.k, o.m) for o in R), [])
+                chained2 = q0.order_by(G.m).order_by(desc(G.k))[:]
+                check('order_by-chain-desc', [(o.k, o.m) for o in chained2], sorted(((o.k, o.m) for o in R), key=lambda t: (-t[0], t[1])), [])
+                check('order_by-chain-is-permutation', sorted(o.id for o in chained), sorted(ids), [])
+                chain_rows.append(([[o.id, o.m, o.k] for o in R], [[o.k, o.m] for o in chained], name))
+                # three criteria, the last call first: ORDER BY k, m, id — fully determined
+                ch3 = q0.order_by(G.id).order_by(G.m).order_by(G.k)[:]
+                check('order_by-chain3', [o.id for o in ch3], [o.id for o in sorted(R, key=lambda o: (o.k, o.m, o.id))], [])
+                # chained filter / where = conjunction
+                f2 = q.filter(lambda g: g.m >= 1).where(lambda g: g.k != 2)
+                check('filter-chain', [o.id for o in f2], [o.id for o in R if o.m >= 1 and o.k != 2], [])
+                f3 = q.filter(m=1)
+                check('filter-kwargs', [o.id for o in f3], [o.id for o in R if o.m == 1], [])
+                # random(n): sample without replacement — judged by the model's isSample
+                for rn in (0, 1, 2, 3, 50):
+                    rr = [o.id for o in q0.random(rn)]
+                    sample_reqs.append((ids, rr, rn, name))
                 # ordering only permutes the unordered result (entity queries)
                 check('order-permutes', sorted(o.id for o in q0[:]), sorted(ids), [])
             # known finding: ordering drops the inferred DISTINCT of a non-entity projection
@@ -238,6 +260,21 @@ def method_oracle(ctx):
             if left != exp or cnt != len(before) - len(exp):
                 ctx.violation('bulk delete did not remove exactly the selected rows', {'before': before}, observed=left, expected=exp, key='bulk-delete')
         db.disconnect()
+    # model side of random() and of the order_by chain
+    if ctx.driver.ok:
+        outs = ctx.driver('C24', [{'op': 'sample', 'R': R, 'res': res, 'n': n} for R, res, n, _ in sample_reqs])
+        for (R, res, n, name), out in zip(sample_reqs, outs):
+            ctx.case(['random', name, n, len(R)], kind='oracle:random-sample')
+            if out is not True:
+                ctx.violation('q.random(n) did not return min(n, len(R)) rows of the result drawn without replacement',
+                              {'filter': name, 'n': n, 'R': R}, observed=res, expected='%d distinct rows of R' % min(n, len(R)), key='method:%s:random:%d' % (name, n))
+        outs = ctx.driver('C24', [{'op': 'orderchain', 'rows': rows} for rows, _, _ in chain_rows])
+        for (rows, real_keys, name), out in zip(chain_rows, outs):
+            ctx.case(['orderchain-model', name, len(rows)], kind='order-chain-tie')
+            byid = {r[0]: r for r in rows}
+            model_keys = [[byid[i][2], byid[i][1]] for i in out] if isinstance(out, list) else out
+            if model_keys != real_keys:
+                ctx.divergence('order_by(m).order_by(k): model orderChain (Model/Aggr.lean) and real Pony disagree on the key sequence', rows, model=model_keys, impl=real_keys)
 
 def aggr_tie(ctx):
     """hand model of the aggregates (Model/Aggr.lean) against real Pony on SQLite: nullable int column, every flag"""
@@ -260,7 +297,7 @@ def aggr_tie(ctx):
             qa = lambda: select(x.v for x in V)
             real = {'count_none': qa().count(), 'count_false': qa().count(distinct=False), 'count_true': qa().count(distinct=True),
                     'sum': qa().sum(), 'sum_distinct': qa().sum(distinct=True), 'min': qa().min(), 'max': qa().max(),
-                    'distinct': sorted(q().distinct()[:])}
+                    'distinct': sorted(q().distinct()[:]), 'avg': qa().avg(), 'avg_distinct': qa().avg(distinct=True)}
         db.disconnect()
         reqs.append({'op': 'aggr', 'col': col}); reals.append(real)
     outs = ctx.driver('C24', reqs)
@@ -269,19 +306,59 @@ def aggr_tie(ctx):
         if 'driver_error' in out:
             ctx.divergence('driver error in aggregate model', col, model=out, impl=real); continue
         out = dict(out, distinct=sorted(out['distinct']))
+        for k in ('avg', 'avg_distinct'):   # the model keeps (sum, n) exact; Pony returns the float quotient
+            mv, rv = out.get(k), real[k]
+            if (mv is None) == (rv is None) and (mv is None or abs(mv[0] / mv[1] - rv) <= 1e-9 * max(1.0, abs(rv))):
+                out[k] = rv
         if out != real:
             ctx.divergence('aggregate model (Model/Aggr.lean) and real Pony on SQLite disagree', col, model=out, impl=real)
             # the property oracle for the same input: Python on the column
             nn = [x for x in col if x is not None]
             exp = {'count_none': len(set(nn)), 'count_false': len(nn), 'count_true': len(set(nn)), 'sum': sum(nn), 'sum_distinct': sum(set(nn)),
-                   'min': min(nn) if nn else None, 'max': max(nn) if nn else None, 'distinct': sorted(set(nn))}
+                   'min': min(nn) if nn else None, 'max': max(nn) if nn else None, 'distinct': sorted(set(nn)),
+                   'avg': sum(nn) / len(nn) if nn else None, 'avg_distinct': sum(set(nn)) / len(set(nn)) if nn else None}
+            for k in ('avg', 'avg_distinct'):
+                if exp[k] is not None and real[k] is not None and abs(exp[k] - real[k]) <= 1e-9 * max(1.0, abs(exp[k])): exp[k] = real[k]
             if real != exp:
                 ctx.violation('aggregate over a nullable column differs from the Python operation on the column', {'column': col},
                               observed=real, expected=exp, key='aggr:%r' % (sorted(k for k in exp if exp[k] != real[k]),))
 
+def gconcat_tie(ctx):
+    """GROUP_CONCAT model against real Pony on SQLite: nullable string column, several separators"""
+    if not ctx.driver.ok:
+        ctx.note('driver unavailable: group_concat tie skipped'); return
+    rng = ctx.rng
+    cols = [[], [None], ['a'], ['a', None, 'b'], ['x', 'x', ''], [None, 'p,q', 'r']]
+    for _ in range(ctx.scale(15, 150)):
+        cols.append([rng.choice([None, 'a', 'b', 'ab', '', 'x y', 'é', ',', '|']) for _ in range(rng.choice([1, 2, 3, 5, 8]))])
+    reqs, reals = [], []
+    for col in cols:
+        sep = rng.choice([',', '|', ', ', '', '--'])
+        db = Database()
+        class V(db.Entity):
+            t = Optional(str, nullable=True)
+        db.bind('sqlite', ':memory:'); db.generate_mapping(create_tables=True)
+        with db_session:
+            for x in col: V(t=x)
+        with db_session:
+            # group_concat has no ORDER BY of its own: SQLite concatenates in scan (= id) order for a single-table query
+            real = select(x.t for x in V).without_distinct().group_concat(sep)
+        db.disconnect()
+        reqs.append({'op': 'gconcat', 'col': col, 'sep': sep}); reals.append(real)
+    outs = ctx.driver('C24', reqs)
+    for col, rq, real, out in zip(cols, reqs, reals, outs):
+        ctx.case(['gconcat', col, rq['sep']], kind='group-concat-tie')
+        if out != real:
+            ctx.divergence('group_concat model (Model/Aggr.lean) and real Pony on SQLite disagree', [col, rq['sep']], model=out, impl=real)
+            nn = [x for x in col if x is not None]
+            exp = rq['sep'].join(nn) if nn else None
+            if real != exp:
+                ctx.violation('group_concat over a nullable string column differs from sep.join of the non-missing values', {'column': col, 'sep': rq['sep']},
+                              observed=real, expected=exp, key='group_concat:%r' % (rq['sep'],))
+
 def run(ctx):
     translator_tie(ctx)
-    for part in (aggr_tie, method_oracle):
+    for part in (aggr_tie, gconcat_tie, method_oracle):
         try:
             part(ctx)
         except Exception as e:
